@@ -470,6 +470,43 @@ func TestVerifC07(t *testing.T) {
 		return
 	}
 	zzvC07Sequential(res, base, p)
+	// The location of the telemetry directory is arbitrary: a path that happens to contain a week's
+	// date must not make that week look reported.
+	if p.Mine(1) {
+		s0 := time.Date(2024, 1, 10, 0, 0, 0, 1, time.UTC)
+		for _, dirname := range []string{"plain-", "profile-2024-01-07-", "backup.2024-01-07.json-", "2023-12-24-"} {
+			for _, mode := range []string{"on", "local"} {
+				for _, ready := range []string{"none", "2023-12-24", "2023-12-17"} {
+					u := zzvNewUNamed(base, dirname)
+					if mode == "on" {
+						u.setModeRaw("on 2020-01-01")
+					} else {
+						u.setModeRaw("local")
+					}
+					placed := []zzvPlaced{u.place(zzvFileSpec{"A", "plain"}, 0, s0), u.place(zzvFileSpec{"B", "plain"}, 1, s0)}
+					if ready != "none" {
+						os.WriteFile(filepath.Join(u.td.LocalDir(), ready+".json"), []byte(`{"Week":"`+ready+`","X":0.5,"Config":"v1.2.3","Programs":[]}`), 0o666)
+					}
+					all := zzvAllApproving([]ref.LocalFile{{zzvBuildA, map[string]uint64{"c": 1, "d:a": 1, "s\nF": 1}}, {zzvBuildB, nil}})
+					zzvInstall(all, "v1.2.3", 0.5)
+					before := u.reports()
+					err, pan := u.run(s0)
+					res.Evaluations++
+					desc := fmt.Sprintf("directory %q, mode %s, ready report %s", dirname, mode, ready)
+					fail := func(sig, format string, args ...any) {
+						res.Violate(sig+"/dirname", fmt.Sprintf(format, args...)+" ["+desc+"]", map[string]any{"case": desc})
+					}
+					if err != nil || pan != nil {
+						fail("run-failed", "err=%v panic=%v", err, pan)
+					} else {
+						zzvC07Oracle(fail, u, placed, s0, before, mode)
+					}
+					res.Class("dirname/" + dirname + mode)
+					u.close()
+				}
+			}
+		}
+	}
 	type cs struct {
 		name string
 		n    int
